@@ -239,8 +239,9 @@ func checkRun(c *caseRun, expectedAtStart [][]walItem) []finding {
 			for _, x := range inc.replayed {
 				got = append(got, x.Key)
 			}
-			// a kill during replay cuts the replay short: compare the common prefix only
-			if inc.status == stKilled && len(got) < len(want) {
+			// a kill during replay cuts the replay short, and so does a commit re-derived during
+			// replay whose listener does not complete (Run returns): compare the common prefix only
+			if (inc.status == stKilled || inc.commitFailed) && len(got) < len(want) {
 				want = want[:len(got)]
 			}
 			if d := diffSeq(want, got); d != "" {
